@@ -118,8 +118,42 @@ type Tagged Tag
 func (t Tagged) Compile(i FeatureIndex, w World) search.Iterator {
 	if strings.HasPrefix(t.Key, "#") {
 		return search.All{Token: fmt.Sprintf("%s=%s", t.Key[1:], t.Value.String())}.Compile(i)
+	} else if strings.HasPrefix(t.Key, "@") {
+		// The index only holds the key for these tags, so we filter the
+		// features that have it by value.
+		return &tagged{tagged: t, index: i, iterator: Keyed{Key: t.Key}.Compile(i, w)}
 	}
 	return search.NewEmptyIterator()
+}
+
+type tagged struct {
+	tagged   Tagged
+	index    FeatureIndex
+	iterator search.Iterator
+}
+
+func (t *tagged) Next() bool {
+	ok := t.iterator.Next()
+	for ok && !t.tagged.Matches(t.index.Feature(t.Value()), nil) {
+		ok = t.iterator.Next()
+	}
+	return ok
+}
+
+func (t *tagged) Advance(key search.Key) bool {
+	ok := t.iterator.Advance(key)
+	for ok && !t.tagged.Matches(t.index.Feature(t.Value()), nil) {
+		ok = t.iterator.Next()
+	}
+	return ok
+}
+
+func (t *tagged) Value() search.Value {
+	return t.iterator.Value()
+}
+
+func (t *tagged) EstimateLength() int {
+	return t.iterator.EstimateLength()
 }
 
 func (t Tagged) Matches(f Feature, w World) bool {
